@@ -729,3 +729,60 @@
     #[kani::stub(XZReader::parse_index_and_footer, index_footer_stub)]
     #[kani::stub(XZReader::try_start_next_stream, next_stream_stub)]
     fn c16_xz_end_of_blocks_multi_next() { xz_end_of_blocks(true, true); }
+
+    // ---------------------------------------------------------------- C06.xz.bhdr: BlockHeader::parse on arbitrary bytes
+    /// For a declared header size of (s+1)*4 bytes with ARBITRARY content (flags, optional sizes, 1..4 filter records,
+    /// padding, CRC field): parse returns without panicking (index / slice bounds, arithmetic: default obligations);
+    /// Ok(Some) => exactly the declared bytes were consumed, the stored CRC equals crc_fn(size byte + body), the last
+    /// filter is LZMA2 and no filter follows it, every recorded property is inside its decodable range.
+    fn bh_total(size_byte: u8) {
+        let mut b: [u8; 24] = vk::any();
+        b[0] = size_byte;
+        let hs = (size_byte as usize + 1) * 4;
+        let mut r = vk::Src::<24>::new(b, 24);
+        let res = BlockHeader::parse(&mut r);
+        match res {
+            Ok(Some(h)) => {
+                assert!(r.pos == hs);
+                let crc = CRC32.checksum(&b[..hs - 4]);
+                assert!(u32::from_le_bytes([b[hs - 4], b[hs - 3], b[hs - 2], b[hs - 1]]) == crc);
+                let n = (b[1] & 3) as usize + 1;
+                assert!(h.filters[n - 1] == Some(FilterType::LZMA2));
+                let mut i = 0;
+                while i < 4 {
+                    if i >= n { assert!(h.filters[i].is_none()); }
+                    if i + 1 < n { assert!(h.filters[i].is_some()); }
+                    if h.filters[i] == Some(FilterType::Delta) { assert!(h.properties[i] >= 1 && h.properties[i] <= 256); }
+                    i += 1;
+                }
+                assert!(h.properties[n - 1] >= 4096);
+                assert!(b[1] & 0x3C == 0, "reserved block flag bits must be rejected");
+            }
+            Ok(None) => assert!(false, "non-zero size byte taken for the index indicator"),
+            Err(_) => { assert!(r.pos <= hs); }
+        }
+    }
+    #[kani::proof]
+    #[kani::unwind(11)]
+    //@ERR
+    #[kani::stub(crate::xz::parse_multibyte_integer, crate::xz::verif_kani::mbi_parse_contract)]
+    #[kani::stub(crate::xz::count_multibyte_integer_size, crate::xz::verif_kani::mbi_count_contract)]
+    fn c06_xz_block_header_total_s1() { bh_total(1); }
+    #[kani::proof]
+    #[kani::unwind(11)]
+    //@ERR
+    #[kani::stub(crate::xz::parse_multibyte_integer, crate::xz::verif_kani::mbi_parse_contract)]
+    #[kani::stub(crate::xz::count_multibyte_integer_size, crate::xz::verif_kani::mbi_count_contract)]
+    fn c06_xz_block_header_total_s2() { bh_total(2); }
+    #[kani::proof]
+    #[kani::unwind(11)]
+    //@ERR
+    #[kani::stub(crate::xz::parse_multibyte_integer, crate::xz::verif_kani::mbi_parse_contract)]
+    #[kani::stub(crate::xz::count_multibyte_integer_size, crate::xz::verif_kani::mbi_count_contract)]
+    fn c06_xz_block_header_total_s3() { bh_total(3); }
+    #[kani::proof]
+    #[kani::unwind(11)]
+    //@ERR
+    #[kani::stub(crate::xz::parse_multibyte_integer, crate::xz::verif_kani::mbi_parse_contract)]
+    #[kani::stub(crate::xz::count_multibyte_integer_size, crate::xz::verif_kani::mbi_count_contract)]
+    fn c06_xz_block_header_total_s5() { bh_total(5); }
